@@ -100,7 +100,7 @@ var shapes = func() []shape {
 }()
 
 // second-argument shapes
-var bShapes = []string{"i1", "nil", "s", "l", "m", "im3"}
+var bShapes = []string{"i1", "nil", "s", "l", "m", "im3", "ls", "st"}
 
 // first-argument shapes of the quick tier (thorough: all): one representative per kind
 var aQuick = []string{"nil", "true", "i1", "im3", "u8", "imax", "f", "nan", "s0", "s", "sbad", "sfmt", "named",
